@@ -213,7 +213,7 @@ func dumpsOf(tok string) map[string]string {
 const b64Alphabet = "ABCDEFGHIJKLMNOPQRSTUVWXYZabcdefghijklmnopqrstuvwxyz0123456789-_"
 
 func runC01(c *Ctx) {
-	c.Res.Rule = "tokens: valid tokens of 7 kinds x {v2 Encode, v1compat Encode}; single-character substitutions / insertions / deletions in every segment (sampled in quick, every position of a token pool in thorough); alterations that leave the base64url alphabet (padding, +, /, line breaks, blanks in every segment); segment splices between tokens of different issuers/kinds; payloads re-signed by a foreign key keeping iss; wrong-layout signatures both ways; header rewrites; random strings. Every token goes through Decode, DecodeGeneric and the six typed decoders. Oracle: any acceptance must verify (crypto/ed25519 + the harness's own nkey decoder) under the REPORTED issuer over exactly the text the statement names; an accepted alteration must have identical content. non-trivial = distinct tokens that reached signature verification or were accepted."
+	c.Res.Rule = "tokens: valid tokens of 7 kinds x {v2 Encode, v1compat Encode}; single-character substitutions / insertions / deletions in every segment (sampled in quick, every position of a token pool in thorough); alterations that leave the base64url alphabet (padding, +, /, line breaks, blanks in every segment); segment splices between tokens of different issuers/kinds; payloads re-signed by a foreign key keeping iss; wrong-layout signatures both ways; header rewrites; issuers that are well-formed nkey strings carrying a key that is not 32 bytes (the signer's key truncated or extended); random strings. Every token goes through Decode, DecodeGeneric and the six typed decoders. Oracle: any acceptance must verify (crypto/ed25519 + the harness's own nkey decoder) under the REPORTED issuer over exactly the text the statement names; an accepted alteration must have identical content. non-trivial = distinct tokens that reached signature verification or were accepted."
 	type vt struct{ tok, kind, layout string }
 	var pool []vt
 	for round := 0; round < c.N(2, 6); round++ {
@@ -337,11 +337,25 @@ func runC01(c *Ctx) {
 	}
 	// short / odd issuer keys (defect D11's territory) and garbage
 	odd := []string{"AAAAAAAAAAAAAAAAAAAAA", "", "A", "AAAAAAA", pubOf(kpN('X', 0)), "UAAAA", strings.Repeat("A", 56)}
+	// well-formed nkey strings (right prefix, right checksum) whose key is the signer's real key cut short or
+	// extended: the signature verifies under the first 32 bytes, but the reported issuer is not that key
+	if _, raw, ok := oracleKey(pubOf(kpN('A', 0))); ok {
+		for _, extra := range [][]byte{{0}, {1, 2, 3, 4, 5, 6, 7, 8}, raw} {
+			odd = append(odd, encodeNkeyRaw(0, append(append([]byte{}, raw...), extra...)))
+		}
+		for _, n := range []int{31, 16, 1} {
+			odd = append(odd, encodeNkeyRaw(0, raw[:n]))
+		}
+	}
 	for _, iss := range odd {
 		for _, lay := range []string{"v1", "v2"} {
-			payload := fmt.Sprintf(`{"iss":%q,"sub":%q,"nats":{"type":"user","version":2}}`, iss, pubOf(kpN('U', 1)))
-			t := forge(hdrV2, payload, kpN('A', 0), lay)
-			checkToken(c, t, c01Replay{t, "", "odd-issuer"}, nil)
+			for _, hdr := range []string{hdrV2, hdrV1} {
+				for _, kind := range []string{`"nats":{"type":"user","version":2}`, `"nats":{"k":"v"}`, `"type":"user","nats":{}`} {
+					payload := fmt.Sprintf(`{"iss":%q,"sub":%q,%s}`, iss, pubOf(kpN('U', 1)), kind)
+					t := forge(hdr, payload, kpN('A', 0), lay)
+					checkToken(c, t, c01Replay{t, "", "odd-issuer"}, nil)
+				}
+			}
 		}
 	}
 	for i := 0; i < c.N(200, 5000); i++ {
